@@ -1,7 +1,10 @@
-/* contract of bloc::FORALLStatement::parse_clause (C11): while the body of a forall is compiled the iterator variable
+/* contracts of bloc::FORALLStatement::parse_clause and bloc::FORStatement::parse_clause (C11).
+ * FORALL: while the body of a forall is compiled the iterator variable
  * is type-protected and inherits the lock of the table, and the table's symbol is locked.  Whether the body compiles
  * or is rejected (ParseError), the iterator's symbol gets back exactly the protection flag and the lock it had, the
  * table's symbol gets back its lock, and the block opened for the body is closed exactly once.  The parser, the
+ * FOR: the control variable is type-protected while the body is compiled and gets its protection flag back on both
+ * exits; its lock is not touched.  The parser, the
  * statement compiler and the std::list of statements are stubs (at most POP_MAX tokens, 2 statements): BOUNDED. */
 #define HAVE_STD_STRING
 #define CONTAINERS_MODEL
@@ -54,6 +57,7 @@ void _ZN4bloc10ExecutableC1ERNS_7ContextERKNSt7__cxx114listIPKNS_9StatementESaIS
 _Bool _ZNKSt12__shared_ptrIN4bloc5TokenELN9__gnu_cxx12_Lock_policyE2EEcvbEv(const struct TokenPtr *this) { return TOK_OF(this) != 0; }
 void VCALL_Statement__Statement(struct Statement *s) { (void)s; g_stmt_del_n++; }   /* delete ss */
 
+#ifdef JOB_FORALL
 struct Executable *_ZN4bloc15FORALLStatement12parse_clauseERNS_6ParserERNS_7ContextEPS0_(struct Parser *p, struct Context *ctx, struct FORALLStatement *rof)
 __CPROVER_requires(IS_FRESH(ctx, sizeof(*ctx)) && IS_FRESH(rof, sizeof(*rof)) && IS_FRESH(rof->_var, sizeof(struct VariableExpression)) && IS_FRESH(rof->_exp, sizeof(struct Expression)))
 __CPROVER_requires(INPUT_STATE(g_var_id, g_exp_id, g_var_sym._safety, g_var_sym._locked, g_exp_sym._locked, g_exp_sym._safety, g_tok[0].code, g_tok[1].code, g_tok[2].code, g_tok[3].code, g_tok[4].code, g_tok[5].code))
@@ -76,5 +80,22 @@ PROP(C11) __CPROVER_ensures(g_begin_n == 1 && g_end_n == 1 && g_begin_arg == (co
 PROP(C11) __CPROVER_ensures(!OK ==> g_stmt_del_n == g_stmt_n)
 PROP(C11) __CPROVER_ensures(OK ==> (g_stmt_del_n == 0 && g_stmt_n >= 1 && RET != 0))
 ;
+#endif
+#ifdef JOB_FOR
+struct Executable *_ZN4bloc12FORStatement12parse_clauseERNS_6ParserERNS_7ContextEPS0_(struct Parser *p, struct Context *ctx, struct FORStatement *rof)
+__CPROVER_requires(IS_FRESH(ctx, sizeof(*ctx)) && IS_FRESH(rof, sizeof(*rof)) && IS_FRESH(rof->_var, sizeof(struct VariableExpression)))
+__CPROVER_requires(INPUT_STATE(g_var_id, g_var_sym._safety, g_var_sym._locked, g_tok[0].code, g_tok[1].code, g_tok[2].code, g_tok[3].code, g_tok[4].code, g_tok[5].code))
+__CPROVER_requires(*(unsigned char *)&g_var_sym._safety <= 1 && *(unsigned char *)&g_var_sym._locked <= 1 && g_var_id != NID)
+__CPROVER_requires(__exc == 0 && __caught_n == 0 && g_begin_n == 0 && g_end_n == 0 && g_stmt_n == 0 && g_stmt_del_n == 0 && g_pop_n == 0 && GLOBALS_PINNED)
+__CPROVER_assigns()
+PROP(C01, C11) __CPROVER_ensures(OK || (__exc == 1 && __exc_type == G2C_EXC_ParseError))
+/* accepted or rejected: the control variable keeps the constraints it had */
+PROP(C11) __CPROVER_ensures(SAFETY(g_var_sym) == __CPROVER_old(SAFETY(g_var_sym)) && g_var_sym._locked == __CPROVER_old(g_var_sym._locked))
+PROP(C11) __CPROVER_ensures(!__CPROVER_old(g_var_sym._locked) ==> g_var_sym._safety == __CPROVER_old(g_var_sym._safety))
+PROP(C11) __CPROVER_ensures(g_begin_n == 1 && g_end_n == 1 && g_begin_arg == (const void *)rof)
+PROP(C11) __CPROVER_ensures(!OK ==> g_stmt_del_n == g_stmt_n)
+PROP(C11) __CPROVER_ensures(OK ==> (g_stmt_del_n == 0 && g_stmt_n >= 1 && RET != 0))
+;
+#endif
 
 #include FNS_C
